@@ -165,6 +165,9 @@ extern struct op ts_ops[];
 #ifdef WITH_THR
 extern struct op thr_ops[];
 #endif
+#ifdef WITH_MEM
+extern struct op mem_ops[];
+#endif
 #ifdef WITH_H5
 extern struct op h5_ops[];
 #endif
@@ -213,6 +216,9 @@ int main(int argc, char** argv)
 		prime_heap();
 		for (struct op* o = base_ops; o->name && !found; o++) if (!strcmp(o->name, opname)) { o->fn(n, args); found = 1; }
 		for (struct op* o = more_ops; o->name && !found; o++) if (!strcmp(o->name, opname)) { o->fn(n, args); found = 1; }
+#ifdef WITH_MEM
+		for (struct op* o = mem_ops; o->name && !found; o++) if (!strcmp(o->name, opname)) { o->fn(n, args); found = 1; }
+#endif
 #ifdef WITH_THR
 		for (struct op* o = thr_ops; o->name && !found; o++) if (!strcmp(o->name, opname)) { o->fn(n, args); found = 1; }
 #endif
